@@ -17,6 +17,11 @@ import (
 
 	"github.com/mattn/go-runewidth"
 	"go.pennock.tech/tabular"
+	"go.pennock.tech/tabular/csv"
+	"go.pennock.tech/tabular/html"
+	tjson "go.pennock.tech/tabular/json"
+	"go.pennock.tech/tabular/markdown"
+	"go.pennock.tech/tabular/texttable"
 )
 
 type C01Round struct {
@@ -41,6 +46,147 @@ type C01Spec struct {
 	// under test, in the same process: whatever the library remembers between
 	// cells is exercised, and a replay of the one case reproduces it
 	Also []ItemSpec `json:"also,omitempty"`
+	// for a cell that lives in a table (via != 0):
+	// Cb: callbacks registered (for all four times, every target the owner
+	// takes) before the rounds: 1 on the cell itself, 2 on its row, 4 on its
+	// column, 8 on column 0, 16 on the table;
+	// Idle: what is done to the table after every mutation and BEFORE the cell
+	// is observed - none of it may refresh the cell: 1 csv render, 2 html,
+	// 4 json, 8 markdown, 16 texttable, 32 InvokeRenderCallbacks, 64 read
+	// everything back (Headers, AllRows, Cells, CellAt, Column, counts),
+	// 128 fmt %v / %+v / %#v of the table, 256 add a row, a separator and
+	// (unless the cell is a header) new headers
+	Cb   int `json:"cb,omitempty"`
+	Idle int `json:"idle,omitempty"`
+}
+
+const (
+	c01CbAll   = 31
+	c01IdleAll = 511
+)
+
+var c01IdleNames = []string{"csv", "html", "json", "markdown", "texttable", "InvokeRenderCallbacks", "read-back", "fmt", "add-rows"}
+var c01CbNames = []string{"cell", "row", "column", "column0", "table"}
+
+// where a table-held cell lives
+type c01Home struct {
+	t      tabular.Table
+	row    *tabular.Row // nil for a header cell
+	col    int
+	header bool
+}
+
+type c01Marker struct{ n int }
+type c01MarkKey struct{}
+
+func (m *c01Marker) UpdateProperties(po tabular.PropertyOwner) error {
+	m.n++
+	return po.SetProperty(c01MarkKey{}, m.n)
+}
+
+// registerCallbacks: harmless callbacks on and above the cell, for every time
+// and every target the owner accepts (refusals are not this property's business)
+func (h *c01Home) registerCallbacks(cell *tabular.Cell, cb int) {
+	var owners []tabular.PropertyOwner
+	if cb&1 != 0 {
+		owners = append(owners, cell)
+	}
+	if cb&2 != 0 && h.row != nil {
+		owners = append(owners, h.row)
+	}
+	if cb&4 != 0 {
+		if c := h.t.Column(h.col); c != nil {
+			owners = append(owners, c)
+		}
+	}
+	if cb&8 != 0 {
+		if c := h.t.Column(0); c != nil {
+			owners = append(owners, c)
+		}
+	}
+	if cb&16 != 0 {
+		owners = append(owners, h.t)
+	}
+	for _, o := range owners {
+		registerAllTimes(h.t, o)
+	}
+}
+
+func registerAllTimes(t tabular.Table, o tabular.PropertyOwner) {
+	m := &c01Marker{}
+	_ = t.RegisterPropertyCallback(o, tabular.CB_AT_ADD, tabular.CB_ON_ITSELF, m)
+	_ = t.RegisterPropertyCallback(o, tabular.CB_AT_ADD, tabular.CB_ON_CELL, m)
+	_ = t.RegisterPropertyCallback(o, tabular.CB_AT_ADD, tabular.CB_ON_ROW, m)
+	_ = t.RegisterPropertyCallback(o, tabular.CB_AT_RENDER_PRECELL, tabular.CB_ON_ITSELF, m)
+	_ = t.RegisterPropertyCallback(o, tabular.CB_AT_RENDER_PRECELL, tabular.CB_ON_CELL, m)
+	_ = t.RegisterPropertyCallback(o, tabular.CB_AT_RENDER_PRECELL, tabular.CB_ON_ROW, m)
+	_ = t.RegisterPropertyCallback(o, tabular.CB_AT_RENDER, tabular.CB_ON_ITSELF, m)
+	_ = t.RegisterPropertyCallback(o, tabular.CB_AT_RENDER, tabular.CB_ON_CELL, m)
+	_ = t.RegisterPropertyCallback(o, tabular.CB_AT_RENDER, tabular.CB_ON_ROW, m)
+	_ = t.RegisterPropertyCallback(o, tabular.CB_AT_RENDER_POSTCELL, tabular.CB_ON_ITSELF, m)
+	_ = t.RegisterPropertyCallback(o, tabular.CB_AT_RENDER_POSTCELL, tabular.CB_ON_CELL, m)
+	_ = t.RegisterPropertyCallback(o, tabular.CB_AT_RENDER_POSTCELL, tabular.CB_ON_ROW, m)
+}
+
+// idle: operations on the table that are not a request to update any cell
+func (h *c01Home) idle(ops int) {
+	do := func(f func()) {
+		defer func() { recover() }() // a renderer's own failure is other properties' business
+		f()
+	}
+	t := h.t
+	if ops&1 != 0 {
+		do(func() { csv.Render(t) })
+	}
+	if ops&2 != 0 {
+		do(func() { html.Wrap(t).Render() })
+	}
+	if ops&4 != 0 {
+		do(func() { tjson.Render(t) })
+	}
+	if ops&8 != 0 {
+		do(func() { markdown.Render(t) })
+	}
+	if ops&16 != 0 {
+		do(func() { texttable.Render(t) })
+	}
+	if ops&32 != 0 {
+		do(func() { t.InvokeRenderCallbacks() })
+	}
+	if ops&64 != 0 {
+		do(func() {
+			for i := range t.Headers() {
+				c := &t.Headers()[i]
+				_, _, _ = c.String(), c.Lines(), c.Item()
+			}
+			for ri, r := range t.AllRows() {
+				for ci, c := range r.Cells() {
+					_, _, _, _ = c.String(), c.Lines(), c.Height(), c.TerminalCellWidth()
+					p, _ := t.CellAt(tabular.CellLocation{Row: ri + 1, Column: ci + 1})
+					if p != nil {
+						_, _ = p.String(), p.Empty()
+					}
+				}
+			}
+			for i := 0; i <= t.NColumns(); i++ {
+				_ = t.Column(i)
+			}
+			_, _ = t.NRows(), t.Errors()
+		})
+	}
+	if ops&128 != 0 {
+		do(func() { _ = fmt.Sprintf("%v %+v %#v", t, t, t) })
+	}
+	if ops&256 != 0 {
+		do(func() {
+			t.AddRowItems("later", 1)
+			t.AddSeparator()
+			t.AppendNewRow().Add(tabular.NewCell("appended"))
+			if !h.header {
+				t.AddHeaders("H1", "H2", "H3")
+			}
+		})
+	}
 }
 
 // ---------------------------------------------------------------- item kinds of this file
@@ -176,10 +322,10 @@ var c01ViaGo = []string{
 }
 
 // cellVia stores item as the spec says and returns the cell to observe
-func cellVia(via int, item interface{}) *tabular.Cell {
+func cellVia(via int, item interface{}) (*tabular.Cell, *c01Home) {
 	if via == 0 {
 		c := tabular.NewCell(item)
-		return &c
+		return &c, nil
 	}
 	t := tabular.New()
 	must := func(c *tabular.Cell, err error) *tabular.Cell {
@@ -191,21 +337,21 @@ func cellVia(via int, item interface{}) *tabular.Cell {
 	switch via {
 	case 1:
 		t.AddRowItems("f", item)
-		return must(t.CellAt(tabular.CellLocation{Row: 1, Column: 2}))
+		return must(t.CellAt(tabular.CellLocation{Row: 1, Column: 2})), &c01Home{t: t, row: t.AllRows()[0], col: 2}
 	case 2:
 		t.AddHeaders(item)
-		return &t.Headers()[0]
+		return &t.Headers()[0], &c01Home{t: t, col: 1, header: true}
 	case 3:
 		t.AddRow(tabular.NewRow().Add(tabular.NewCell(item)))
-		return must(t.CellAt(tabular.CellLocation{Row: 1, Column: 1}))
+		return must(t.CellAt(tabular.CellLocation{Row: 1, Column: 1})), &c01Home{t: t, row: t.AllRows()[0], col: 1}
 	case 4:
 		r := t.AppendNewRow()
 		r.Add(tabular.NewCell(item))
-		return &r.Cells()[0]
+		return &r.Cells()[0], &c01Home{t: t, row: r, col: 1}
 	case 5:
 		t.AddHeaders("h", item)
 		t.AddRowItems(item, "x")
-		return &t.AllRows()[0].Cells()[0]
+		return &t.AllRows()[0].Cells()[0], &c01Home{t: t, row: t.AllRows()[0], col: 1}
 	}
 	panic(fmt.Sprintf("harness: unknown via %d", via))
 }
@@ -375,6 +521,7 @@ type c01Level struct {
 	rounds  []string // Coq triples
 	descs   []interface{}
 	panicky bool
+	home    *c01Home
 }
 
 type c01RoundDesc struct {
@@ -392,9 +539,10 @@ type c01LevelDesc struct {
 }
 
 type C01Desc struct {
-	Sig    string         `json:"sig"`
-	Levels []c01LevelDesc `json:"levels"`
-	GoCode string         `json:"go,omitempty"`
+	Sig     string         `json:"sig"`
+	Levels  []c01LevelDesc `json:"levels"`
+	GoCode  string         `json:"go,omitempty"`
+	Between string         `json:"between_mutate_and_observe,omitempty"`
 }
 
 func envCoq(id int, v interface{}, texts *[]string) (string, *descJSON) {
@@ -504,7 +652,7 @@ func c01Run(sp C01Spec) (coq string, desc C01Desc, texts []string, lv []*c01Leve
 				l.cell = &c
 			}
 		}()
-		l.cell = cellVia(via, l.stored)
+		l.cell, l.home = cellVia(via, l.stored)
 	}
 	viaFor := func(outermost bool) int {
 		if outermost {
@@ -548,10 +696,19 @@ func c01Run(sp C01Spec) (coq string, desc C01Desc, texts []string, lv []*c01Leve
 		texts = append(texts, l.newObs.Text)
 		descL[k].New = l.newObs
 	}
+	// callbacks on and above a table-held cell
+	home := lv[len(lv)-1].home
+	if home != nil && sp.Cb != 0 && !lv[len(lv)-1].panicky {
+		home.registerCallbacks(lv[len(lv)-1].cell, sp.Cb)
+	}
 	// rounds
 	for _, rd := range sp.Rounds {
 		// mutate the base item
 		mutate(rd)
+		// things done to the table that are no request to update
+		if home != nil && sp.Idle != 0 {
+			home.idle(sp.Idle)
+		}
 		before := make([]C01Obs, len(lv))
 		for k, l := range lv {
 			before[k] = observeCell(l.cell, l.stored)
@@ -605,7 +762,7 @@ func c01Run(sp C01Spec) (coq string, desc C01Desc, texts []string, lv []*c01Leve
 			}
 		}
 	}
-	desc = C01Desc{Sig: c01SigSpec(sp, base), Levels: descL, GoCode: c01GoSnippet(wraps, base, sp.Via, sp.Also)}
+	desc = C01Desc{Sig: c01SigSpec(sp, base), Levels: descL, GoCode: c01GoSnippet(wraps, base, sp.Via, sp.Also), Between: c01Between(sp)}
 	return cqPair(cqList(ws), cqList(lcs)), desc, texts, lv
 }
 
@@ -669,6 +826,25 @@ func c01GoSnippet(wraps []string, base ItemSpec, via int, also []ItemSpec) strin
 		pre += "_ = tabular.NewCell(" + lit + "); "
 	}
 	return pre + strings.Replace(c01ViaGo[via], "ITEM", e, -1) + "; c.String(), c.Empty(), c.Item()"
+}
+
+// c01Between: in words, what a case does between mutating and observing
+func c01Between(sp C01Spec) string {
+	if sp.Via == 0 || (sp.Cb == 0 && sp.Idle == 0) {
+		return ""
+	}
+	var cbs, ops []string
+	for i, n := range c01CbNames {
+		if sp.Cb&(1<<uint(i)) != 0 {
+			cbs = append(cbs, n)
+		}
+	}
+	for i, n := range c01IdleNames {
+		if sp.Idle&(1<<uint(i)) != 0 {
+			ops = append(ops, n)
+		}
+	}
+	return fmt.Sprintf("callbacks (all four times) registered on: %s; after each mutation and before observing, on the table: %s (no Update)", strings.Join(cbs, ", "), strings.Join(ops, ", "))
 }
 
 func c01SigSpec(sp C01Spec, base ItemSpec) string {
@@ -763,6 +939,18 @@ func c01Tags(sp C01Spec) []string {
 	if len(sp.Also) > 0 {
 		tags = append(tags, fmt.Sprintf("items-before=%d", len(sp.Also)))
 	}
+	if sp.Via != 0 && len(sp.Rounds) > 0 {
+		for i, n := range c01IdleNames {
+			if sp.Idle&(1<<uint(i)) != 0 {
+				tags = append(tags, "between-mutate-and-observe="+n)
+			}
+		}
+		for i, n := range c01CbNames {
+			if sp.Cb&(1<<uint(i)) != 0 {
+				tags = append(tags, "callbacks-on="+n)
+			}
+		}
+	}
 	if base.K == "num" {
 		tags = append(tags, "num="+c01NumGo[int(base.I)%len(c01NumGo)])
 	}
@@ -804,6 +992,12 @@ func c01Size(sp C01Spec) int {
 		n += 2
 	}
 	n += 5 * len(sp.Also)
+	for m := sp.Cb; m != 0; m >>= 1 {
+		n += m & 1
+	}
+	for m := sp.Idle; m != 0; m >>= 1 {
+		n += m & 1
+	}
 	for _, w := range wraps {
 		if w == "pcell" {
 			n += 2
@@ -833,20 +1027,31 @@ func c01Shrink(sp C01Spec) []C01Spec {
 	// candidates that drop an item which goes first come first: the library
 	// may remember texts across cells, and candidates share one process
 	if len(sp.Also) > 0 && !hasNum(sp) {
-		out = append(out, C01Spec{Item: sp.Item, Rounds: sp.Rounds, Via: sp.Via})
+		out = append(out, C01Spec{Item: sp.Item, Rounds: sp.Rounds, Via: sp.Via, Cb: sp.Cb, Idle: sp.Idle})
 		for i := range sp.Also {
 			if len(sp.Also) > 1 {
-				out = append(out, C01Spec{Item: sp.Item, Rounds: sp.Rounds, Via: sp.Via, Also: append(append([]ItemSpec{}, sp.Also[:i]...), sp.Also[i+1:]...)})
+				out = append(out, C01Spec{Item: sp.Item, Rounds: sp.Rounds, Via: sp.Via, Cb: sp.Cb, Idle: sp.Idle, Also: append(append([]ItemSpec{}, sp.Also[:i]...), sp.Also[i+1:]...)})
 			}
 		}
 	}
 	with := func(w []string, b ItemSpec, rounds []C01Round) {
-		out = append(out, C01Spec{Item: wrapItem(w, b), Rounds: rounds, Via: sp.Via, Also: sp.Also})
+		out = append(out, C01Spec{Item: wrapItem(w, b), Rounds: rounds, Via: sp.Via, Also: sp.Also, Cb: sp.Cb, Idle: sp.Idle})
 	}
 	if sp.Via != 0 {
 		out = append(out, C01Spec{Item: sp.Item, Rounds: sp.Rounds, Also: sp.Also})
 		if sp.Via != 1 {
-			out = append(out, C01Spec{Item: sp.Item, Rounds: sp.Rounds, Via: 1, Also: sp.Also})
+			out = append(out, C01Spec{Item: sp.Item, Rounds: sp.Rounds, Via: 1, Also: sp.Also, Cb: sp.Cb, Idle: sp.Idle})
+		}
+		if sp.Cb != 0 || sp.Idle != 0 {
+			out = append(out, C01Spec{Item: sp.Item, Rounds: sp.Rounds, Via: sp.Via, Also: sp.Also})
+		}
+		for bit := 0; bit < 9; bit++ {
+			if sp.Idle&(1<<uint(bit)) != 0 && sp.Idle != 1<<uint(bit) {
+				out = append(out, C01Spec{Item: sp.Item, Rounds: sp.Rounds, Via: sp.Via, Also: sp.Also, Cb: sp.Cb, Idle: 1 << uint(bit)})
+			}
+			if bit < 5 && sp.Cb&(1<<uint(bit)) != 0 && sp.Cb != 1<<uint(bit) {
+				out = append(out, C01Spec{Item: sp.Item, Rounds: sp.Rounds, Via: sp.Via, Also: sp.Also, Cb: 1 << uint(bit), Idle: sp.Idle})
+			}
 		}
 	}
 	if len(sp.Rounds) > 0 {
@@ -918,6 +1123,7 @@ func init() {
 			"items stored BY VALUE whose text is reached through a reference inside them (struct with a slice / map field under %v, value-receiver String / Error / GoString reading through a pointer / map / slice field, array of pointers to Stringers), mutated through that reference; each also nested in Cell and *Cell up to depth 3; " +
 			"0-2 mutation rounds (object fields / slice element / map value changed, then every level observed, then Update bottom-up or top-down, then observed); " +
 			"the outermost cell is made by NewCell or the item is stored THROUGH a table (AddRowItems, AddHeaders, NewRow+Add+AddRow, AppendNewRow+Add, header and body together) and the cell the table hands out (CellAt, Headers(), Row.Cells()) is the one observed and Updated, with the same expectations; " +
+			"for a table-held cell, between every mutation and the observation that must still show the snapshot, operations that are no request to update: rendering through csv / html / json / markdown / texttable, InvokeRenderCallbacks, reading everything back (Headers, AllRows, Cells, CellAt, Column), fmt %v / %+v / %#v of the table, adding rows / a separator / headers - with harmless callbacks registered for all four times on the cell itself, its row, its column, column 0 and the table, singly and all together; " +
 			"observed per level and phase: String, Empty, Item identity (type and value of what Item() hands back), Height, TerminalCellWidth; a case is non-trivial when the base item is not nil; distinct = distinct Coq case term",
 		Exhaustive: "all 32 method-set combinations x 8 text classes (with one mutation round), the 25 listed runes, every non-object kind, and every wrapper sequence over {Cell, *Cell} up to depth 2 around 6 representative bases",
 		Gen: func(r *RNG, tier string) []json.RawMessage {
@@ -969,6 +1175,19 @@ func init() {
 					}
 				}
 			}
+			// a cell in a table, its item mutated, then things done to the table that are
+			// no request to update (each renderer, InvokeRenderCallbacks, reading back,
+			// fmt, adding rows), with callbacks on / above the cell; then observed
+			chg := []C01Round{{S: []byte("changed\nnow"), G: []byte("G2"), E: []byte("E2"), H: 2, W: 4}, {S: []byte(""), G: []byte("g3"), E: []byte("e3")}}
+			for via := 1; via < c01ViaN; via++ {
+				for _, cb := range []int{0, 1, 2, 4, 8, 16, c01CbAll} {
+					for bit := 0; bit < 9; bit++ {
+						add(C01Spec{Item: c01Obj(1+8*((via+bit)%4), 1, via+bit), Rounds: chg, Via: via, Cb: cb, Idle: 1 << uint(bit)})
+					}
+					add(C01Spec{Item: c01Obj(1, 2, via), Rounds: chg, Via: via, Cb: cb, Idle: c01IdleAll})
+					add(C01Spec{Item: wrapItem([]string{"pcell"}, c01Obj(1, 1, via)), Rounds: chg[:1], Via: via, Cb: cb, Idle: 1 | 16 | 32})
+				}
+			}
 			// nesting
 			reps := []ItemSpec{{K: "nil"}, Str(""), Str("a\nb"), {K: "rune", R: 'x'}, c01Obj(1, 1, 0), c01Obj(31, 2, 5), c01Obj(0, 0, 0), c01Obj(7, 0, 8)}
 			wrapSeqs := [][]string{{"cell"}, {"pcell"}, {"cell", "cell"}, {"cell", "pcell"}, {"pcell", "cell"}, {"pcell", "pcell"}}
@@ -1011,7 +1230,20 @@ func init() {
 						}
 					}
 				}
-				add(withTwins(C01Spec{Item: wrapItem(w, b), Rounds: rounds, Via: via, Also: also}))
+				cb, idle := 0, 0
+				if via != 0 && r.Pct(70) {
+					idle = 1 << uint(r.Intn(9))
+					if r.Pct(30) {
+						idle |= r.Intn(c01IdleAll + 1)
+					}
+					if r.Pct(60) {
+						cb = 1 << uint(r.Intn(5))
+						if r.Pct(30) {
+							cb = r.Intn(c01CbAll + 1)
+						}
+					}
+				}
+				add(withTwins(C01Spec{Item: wrapItem(w, b), Rounds: rounds, Via: via, Also: also, Cb: cb, Idle: idle}))
 			}
 			return out
 		},
@@ -1027,7 +1259,7 @@ func init() {
 				Desc:       desc,
 				Size:       c01Size(sp),
 				Tags:       c01Tags(sp),
-				Key:        fmt.Sprintf("%d:%s", sp.Via, coq),
+				Key:        fmt.Sprintf("%d:%d:%d:%s", sp.Via, sp.Cb, sp.Idle, coq),
 				Nontrivial: base.K != "nil",
 			}
 		},
